@@ -136,6 +136,17 @@ def run(repo: Repo, rep: Report, tier: str) -> None:
                                          "((Path.cwd() / Path(filename)).resolve() if not Path(filename).is_absolute() else Path(filename)).parent",
                                          "(Path(filename) if Path(filename).is_absolute() else (Path.cwd() / Path(filename)).resolve()).parent") for a in file_alts)
     rep.check(ok_bp, "C17-R2", "base path of a file input is the directory of that file", "; ".join(file_alts) if alts else "missing", parse.loc(pcs[0]) if pcs else parse.loc())
+    cpre = _canon(pre)
+    recs = [c_ for c_ in calls_in(pre.node, pre.name)]
+    rsv = [c_ for c_ in calls_in(pre.node, res.name)]
+    rsv_txt = cpre.text(rsv[0]) if rsv else "?"
+    for rc_ in recs:
+        bp_ = kwarg(rc_, "base_path") if kwarg(rc_, "base_path") is not None else (rc_.args[1] if len(rc_.args) > 1 else None)
+        t_ = cpre.text(bp_) if bp_ is not None else ""
+        ok_ = t_ == rsv_txt + ".parent"
+        rep.check(ok_, "C17-R2", "imports inside an imported file are looked up next to that file (recursion passes the imported file's directory)",
+                  "base_path = <resolved import>.parent" if ok_ else f"recursion passes base_path={t_[-60:] or 'nothing'}: a nested import is searched next to the root file (then in the working directory), not next to its importer", pre.loc(rc_))
+    rep.floor("C17-R2", "recursive expansion sites", len(recs), 1)
     libdir = repo.root / "lib"
     libs = sorted(p.name for p in libdir.glob("*.facto")) if libdir.is_dir() else []
     rep.floor("C17-R2", "bundled library files", len(libs), 3)
@@ -231,6 +242,11 @@ def run(repo: Repo, rep: Report, tier: str) -> None:
     # ---------------- R4 ---------------------------------------------------------------
     from .shared import borrow as _borrow
     _borrow(repo, rep, "C10", "C10-R9", "C17-R4", "library functions written with `cond : value` return their documented value for constant arguments too: folding a decider keeps a selected 0")
+
+    # ---------------- R5 ---------------------------------------------------------------
+    rep.rule("C17-R5", "library functions see their own parameters: inside an inlined body the name resolvers consult the parameter environment before the caller's names (shared with C06-R5/C15-R5)")
+    from .shared import identifier_resolvers as _idres17
+    _idres17(repo, rep, "C17-R5")
 
 
 
